@@ -1112,6 +1112,9 @@ fn ops_case(ctx: &mut Ctx, idx: usize, rng: &mut Rng) {
     }
 }
 
+#[path = "c07_io.rs"]
+mod io;
+
 pub fn run(ctx: &mut Ctx) -> &'static str {
     for case in corpus() {
         let Some(idx) = ctx.begin() else { continue };
@@ -1132,5 +1135,7 @@ pub fn run(ctx: &mut Ctx) -> &'static str {
         let mut rng = Rng::for_case(ctx.seed, 7, idx as u64);
         ops_case(ctx, idx, &mut rng);
     }
-    "hand-written corpus, then random cost-model configurations over a real StateModel (0-12 features, every vehicle/network rate constructor, Combined nested to depth 3, sum and mul aggregation, weights absent/zero/negative/zero-sum, state deltas of every sign, lookups that hit and miss, too-short state vectors; EdgeTraversal::forward_traversal / reverse_traversal over a SearchInstance with scripted access and traversal models), then the three cost_ops::calculate_* functions called directly on arbitrary index lists / vector lengths (out-of-range and repeated indices, empty feature list); non-trivial = CostModel::new succeeds, all three API calls return a cost and at least one feature has a non-zero weight with a non-zero vehicle rate, or an in-range non-empty cost_ops call; distinct by full case text"
+    // the rest of the anchor files, function by function (see c07_io.rs)
+    io::run_io(ctx);
+    "hand-written corpus, then random cost-model configurations over a real StateModel (0-12 features, every vehicle/network rate constructor, Combined nested to depth 3, sum and mul aggregation, weights absent/zero/negative/zero-sum, state deltas of every sign, lookups that hit and miss, too-short state vectors; EdgeTraversal::forward_traversal / reverse_traversal over a SearchInstance with scripted access and traversal models), then the three cost_ops::calculate_* functions called directly on arbitrary index lists / vector lengths (out-of-range and repeated indices, empty feature list); non-trivial = CostModel::new succeeds, all three API calls return a cost and at least one feature has a non-zero weight with a non-zero vehicle rate, or an in-range non-empty cost_ops call; then (c07_io.rs) agg_iter / agg called directly (empty, single, zeros, negatives, infinities, NaN, Err items at every position), the arithmetic / order / conversions / Display / serde of unit/cost.rs on special values, forward_traversal / reverse_traversal with every error arm, serialize_cost / serialize_cost_info, CostModelBuilder::build + CostModelService::build on valid and malformed configuration and query JSON (both serde forms of the rate enums, unknown weights with and without the ignore flag, zero-sum weights), NetworkCostRateBuilder::build on CSV lookup files (plain, gzip, truncated gzip, missing, empty, header only, missing column, undecodable cells, short rows, blank lines, repeated keys, non-finite costs); every case of these streams is non-trivial; distinct by full case text"
 }
